@@ -194,7 +194,7 @@ LRU = {
     # C13: host chains (suffix atom, then sub-labels from the registrable domain down) and path chains
     "chains": [[[cp(l) for l in suffix.split(".")[::-1]], [cp(l) for l in subs]] for suffix, subs in
                [("fr", ["lemonde", "www", "a"]), ("co.uk", ["lemonde", "www", "a"]), ("com", ["evil", "fr", "lemonde"]), ("com", ["example", "blog"]),
-                ("uk", ["co", "lemonde"])]],          # a public suffix ('uk') above another one ('co.uk'): the suffix boundary moves along the chain
+                ("uk", ["co", "lemonde"]), ("org", ["example", "localhost"])]],          # a public suffix ('uk') above another one ('co.uk'): the suffix boundary moves along the chain
     "segchain": [cp(x) for x in ["a", "b", "c.html"]],
 }
 
